@@ -372,7 +372,29 @@ def run(tier, seed, replay=None):
         fn = os.path.join(C.REPO, 'test', 'io', 'geometries', 'winglet_from_step.g2')
         with G2(fn) as f:
             f.read()
-    API = [('curve.evaluate', lambda: cf.circle().evaluate([0.1, 0.2])), ('surface.derivative', lambda: sf.sphere().derivative(0.3, 0.4, d=(1, 0))),
+    def g2_trimmed_broken():
+        """a trimmed surface whose trimming loop is NOT closed within the file's own tolerance: the reader raises, and must
+        still leave every global setting as it found it"""
+        import tempfile
+        def crv2(a, b):
+            return '0 100 100\n2 0\n2 2\n0 0 1 1\n%g %g\n%g %g\n\n3 0\n2 2\n0 0 1 1\n%g %g 0\n%g %g 0\n' % (a[0], a[1], b[0], b[1], a[0], a[1], b[0], b[1])
+        corners = [(0.1, 0.1), (0.9, 0.1), (0.9, 0.9), (0.1, 0.9)]
+        txt = '210 1 0 0\n200\n3 0\n2 2\n0 0 1 1\n2 2\n0 0 1 1\n0 0 0\n1 0 0\n0 1 0\n1 1 0\n\n1\n4 0.001\n'
+        for i_ in range(4):
+            a_, b_ = corners[i_], corners[(i_ + 1) % 4]
+            if i_ == 3:
+                b_ = (b_[0] + 0.05, b_[1])        # the loop misses its starting point by 0.05
+            txt += crv2(a_, b_) + '\n'
+        d_ = tempfile.mkdtemp(prefix='c20_')
+        fn = os.path.join(d_, 'broken.g2')
+        try:
+            open(fn, 'w').write(txt)
+            with G2(fn) as f:
+                f.read()
+        finally:
+            import shutil
+            shutil.rmtree(d_, ignore_errors=True)
+    API = [('g2 trimmed surface with an open loop (the reader raises)', g2_trimmed_broken), ('curve.evaluate', lambda: cf.circle().evaluate([0.1, 0.2])), ('surface.derivative', lambda: sf.sphere().derivative(0.3, 0.4, d=(1, 0))),
            ('insert_knot', lambda: cf.circle().insert_knot(0.3)), ('refine', lambda: sf.square().refine(2)),
            ('raise_order', lambda: sf.disc().raise_order(1)), ('split', lambda: cf.circle().split([1.0, 2.0])),
            ('reverse', lambda: sf.cylinder().reverse(0)), ('make_identical', lambda: splipy.SplineObject.make_splines_identical(cf.circle(), cf.line([0, 0], [1, 1]))),
